@@ -440,8 +440,8 @@ pub(crate) fn l2_body<const M: usize, const B: usize>(kind: u8, idcase: usize) {
     if !global && id >= M {
         assert!(n == 0, "C01: an event naming a machine that does not exist is accounted for but delivered to nobody");
     }
-    if global && ev != 6 {
-        // a global event steps every machine once (plus the signal round)
+    if global {
+        // a global event (BlockingBegin included, whatever id it carries) steps every machine once (plus the signal round)
         i = 0;
         while i < M {
             assert!(unsafe { G_STEPPED[i] }, "C05: a global event is delivered to every machine");
